@@ -257,7 +257,7 @@ def _text(draw, ctx, nonblank=False):
       pieces.append(draw(st.sampled_from(["\U0001F600", "e\u0301", "\u00e9", "\u4e2d", "\u05d0", "\u00a0", "\u2028", "\u3000", "\u0085",
                                           "\u2029", "\u2003"])))
     elif not prof["xml_safe"]:
-      pieces.append(draw(st.sampled_from(["\r", "\r\n", "\r "])))
+      pieces.append(draw(st.sampled_from(["\r", "\r\n", "\r ", "\r\r", "\n\r"])))
   return "".join(pieces)
 
 
